@@ -133,12 +133,35 @@ def main():
                 if act == "Create":
                     o = args[0]
                     kind = kindof[o]
-                    if kind == "ham":
-                        d = herm(N, degenerate)
-                        obj = qr.Hamiltonian(data=d.copy())
-                    elif kind == "sa":
-                        d = herm(N, degenerate)
-                        obj = qr.qm.SelfAdjointOperator(data=d.copy())
+                    if kind in ("ham", "sa"):
+                        # generic Hermitian; already diagonal with an
+                        # unsorted (possibly degenerate) diagonal; or a
+                        # non-monotonic function of an earlier operator
+                        # (commutes with it: diagonal and unsorted inside the
+                        # earlier operator's context)
+                        others = [x for x in objs if x != o and
+                                  objs[x]["kind"] in ("ham", "sa")]
+                        x = rng.rand()
+                        if x < 0.25:
+                            if degenerate:
+                                ev = rng.randint(0, 3, size=N).astype(float)
+                            else:
+                                ev = rng.randn(N)
+                            d = numpy.diag(ev).astype(complex)
+                            shape = "diagonal"
+                        elif x < 0.45 and others:
+                            B = ref_data(others[0], prev["trans"])
+                            d = B.dot(B) - 0.7 * B
+                            d = (d + d.conj().T) / 2
+                            shape = "commuting"
+                        else:
+                            d = herm(N, degenerate)
+                            shape = "generic"
+                        hist.append(["shape", o, shape])
+                        if kind == "ham":
+                            obj = qr.Hamiltonian(data=d.copy())
+                        else:
+                            obj = qr.qm.SelfAdjointOperator(data=d.copy())
                     elif kind == "op":
                         d = rng.randn(N, N) + 1j * rng.randn(N, N)
                         obj = qr.qm.Operator(data=d.copy())
